@@ -69,8 +69,21 @@ def strategy_(draw, tier):
                 tags.append("NM:i:%d" % draw(st.integers(0, 50)))
             if tp:
                 tags.append("tp:A:" + tp)
-            cg = "cg:Z:" + "".join("%d%s" % x for x in ops)
-            tags.insert(draw(st.integers(0, len(tags))), cg)
+            style = draw(st.sampled_from(["=X", "=X", "=X", "M", "none"]))
+            if style == "M":
+                # the M-style CIGAR of the same alignment: =/X runs become M runs
+                mops = []
+                for n_, o_ in ops:
+                    o2 = "M" if o_ in "=X" else o_
+                    if mops and mops[-1][1] == o2:
+                        mops[-1] = (mops[-1][0] + n_, o2)
+                    else:
+                        mops.append((n_, o2))
+                cg = "cg:Z:" + "".join("%d%s" % x for x in mops)
+            else:
+                cg = "cg:Z:" + "".join("%d%s" % x for x in ops)
+            if style != "none":
+                tags.insert(draw(st.integers(0, len(tags))), cg)
             plen = block + 10
             lines.append("\t".join([name + comment, str(qlen), str(qs), str(qe), "+", ">s1>s2", str(plen), "3",
                                     str(3 + sum(n for n, o in ops if o in "=XD") if any(o in "=XD" for _, o in ops) else 4),
@@ -121,8 +134,12 @@ def expected(lines, cigar_stat):
     if cigar_stat:
         cnt = {o: [0, 0] for o in "DIX="}
         for f in prim:
-            cg = [x[5:] for x in f[12:] if x.startswith("cg:Z:")][0]
-            for n, o in re.findall(r"(\d+)([=XID])", cg):
+            cgs = [x[5:] for x in f[12:] if x.startswith("cg:Z:")]
+            if not cgs:
+                continue
+            for n, o in re.findall(r"(\d+)([=XIDM])", cgs[0]):
+                if o == "M":
+                    continue
                 cnt[o][0] += 1
                 if int(n) >= 50:
                     cnt[o][1] += 1
@@ -218,4 +235,10 @@ def run_case(case):
         classes.append("name_with_comment")
     if any(not any(x.startswith("tp:A:") for x in f[12:]) for f in fs):
         classes.append("tp_absent")
+    if any(not any(x.startswith("cg:Z:") for x in f[12:]) for f in fs):
+        classes.append("record_without_cigar")
+    if any(any(x.startswith("cg:Z:") and "M" in x for x in f[12:]) for f in fs):
+        classes.append("M_style_cigar")
+    if any(f[9] == f[10] for f in fs):
+        classes.append("matches==block")
     return core.Result(sec_tag and sec_mapq and multi, classes)
